@@ -359,35 +359,30 @@ class Precondition:
     def change_signature(self, old_to_new_param_names: Dict[str, str]) -> None:
         """Change the signature of the compound precondition.
 
-        :param old_to_new_param_names:
-        :return:
+        The renaming is simultaneous; names that do not appear in the mapping (constants, quantified variables)
+        are kept.
+
+        :param old_to_new_param_names: the mapping of old parameter names to new parameter names.
         """
-        for _, condition in self:
-            if isinstance(condition, Predicate):
-                condition.change_signature(old_to_new_param_names)
+        for operand in self.operands:
+            operand.change_signature(old_to_new_param_names)
 
-            elif isinstance(condition, NumericalExpressionTree):
-                condition.change_signature(old_to_new_param_names)
-
-            elif isinstance(condition, Precondition):
-                condition.change_signature(old_to_new_param_names)
-
-        new_equality_conditions = set()
-        new_inequality_conditions = set()
-        for equality_condition in self.equality_preconditions:
-            param_1, param_2 = equality_condition
-            new_equality_conditions.add(
-                (old_to_new_param_names[param_1], old_to_new_param_names[param_2])
+        # the operands are hashed by their text, which has just changed.
+        self.operands = set(self.operands)
+        self.equality_preconditions = {
+            (
+                old_to_new_param_names.get(param_1, param_1),
+                old_to_new_param_names.get(param_2, param_2),
             )
-
-        self.equality_preconditions = new_equality_conditions
-        for inequality_condition in self.inequality_preconditions:
-            param_1, param_2 = inequality_condition
-            new_inequality_conditions.add(
-                (old_to_new_param_names[param_1], old_to_new_param_names[param_2])
+            for param_1, param_2 in self.equality_preconditions
+        }
+        self.inequality_preconditions = {
+            (
+                old_to_new_param_names.get(param_1, param_1),
+                old_to_new_param_names.get(param_2, param_2),
             )
-
-        self.inequality_preconditions = new_inequality_conditions
+            for param_1, param_2 in self.inequality_preconditions
+        }
 
 
 class UniversalPrecondition(Precondition):
@@ -422,6 +417,19 @@ class UniversalPrecondition(Precondition):
         return (
             f"(forall ({self.quantified_parameter} - {self.quantified_type.name})"
             f"\n\t{internal_condition_string})"
+        )
+
+    def change_signature(self, old_to_new_param_names: Dict[str, str]) -> None:
+        """Change the signature of the quantified condition; the quantified parameter is bound here and is kept.
+
+        :param old_to_new_param_names: the mapping of old parameter names to new parameter names.
+        """
+        super().change_signature(
+            {
+                old_name: new_name
+                for old_name, new_name in old_to_new_param_names.items()
+                if old_name != self.quantified_parameter
+            }
         )
 
     def __str__(self):
